@@ -259,6 +259,8 @@ def judge(ctx, case, arena, target, before, raised, tap, stub, exporter, events,
         allowed |= {res_rel, os.path.join(res_rel, "img.png")}
         if os.path.join(res_rel, "img.png") not in after:
             bad("HTML resource folder did not end up next to the target", mech=None)
+        elif not open(os.path.join(arena.out, res_rel, "img.png"), "rb").read().startswith(b"IMG"):
+            bad("HTML resource folder next to the target does not hold the converter's image", mech=None)
         inside = sorted(k for k in after if k.startswith(res_rel + os.sep))
         if inside != [os.path.join(res_rel, "img.png")]:
             bad(f"HTML resource folder holds {inside}, expected exactly the converter's resources",
@@ -280,7 +282,19 @@ STEMS = ["doc", "table[1]", "listing [a-c]", "re*port", "a?b", "out put", "t.1.2
 def run_one(ctx, env, exporter, docname, target_state, k=None, stub_mode="ok", label="", stem="doc"):
     arena, inj, trace, tap, docs = env
     ext = {"rtf": "rtf", "docx": "docx", "html": "html", "pdf": "pdf"}[exporter]
-    target = arena.reset(target_state, ext, stem)
+    target = arena.reset("absent" if target_state == "reexport" else target_state, ext, stem)
+    if target_state == "reexport":
+        # the target already holds exactly what this export will produce (an earlier, identical export), but
+        # its resource folder was tampered with since: stale image, extra file
+        first = make_stub(stub_mode, arena) if exporter != "rtf" else None
+        call_export(docs[docname], exporter, target, first)
+        res = target + "_files"
+        if os.path.isdir(res):
+            with open(os.path.join(res, "img.png"), "wb") as f:
+                f.write(b"STALE")
+            with open(os.path.join(res, "old.png"), "wb") as f:
+                f.write(b"OLD")
+        ctx.count("reexports_onto_identical_target")
     before = snapshot(arena.out)
     stub = make_stub(stub_mode, arena) if exporter != "rtf" else None
     case = {"exporter": exporter, "doc": docname, "target": target_state, "k": k, "stub": stub_mode}
@@ -378,6 +392,15 @@ def run_shard(desc, ctx):
                             ctx.count("stub_runs")
                             run_one(ctx, env, e, rng.choice(["col_a", "plain3", "figure"]), t, stub_mode=m,
                                     stem=rng.choice(STEMS))
+                # re-export onto a target that is byte-identical to the new result
+                for e in ("html", "docx", "pdf", "rtf"):
+                    for d in ("col_a", "plain3"):
+                        ctx.count("stub_runs")
+                        run_one(ctx, env, e, d, "reexport", stub_mode="html_resources" if e == "html" else "ok",
+                                stem=rng.choice(STEMS))
+                for m in ("real:html_resources",):
+                    ctx.count("stub_runs")
+                    run_one(ctx, env, "html", "col_a", "reexport", stub_mode=m, stem=rng.choice(STEMS))
                 # every hostile file name with the exporter that has the most path handling
                 for stem in STEMS:
                     for t in ("absent", "present_resources"):
